@@ -170,7 +170,10 @@ def top_terms(t):
 
 
 CORPUS24 = ["H2O", "Ca5(PO4)3F", "(H2O)2", "C6H12O6", "SiO2", "Fe2O3", "Ca(OH)2", "NaCl", "H0.5O", "Co1.25O", "CuSO4(H2O)5",
-            "((H2)2)2", "Pb", "UO2", "He", "CoCO3", "Mg(NO3)2", "K4Fe(CN)6", "Al2(SO4)3", "(NH4)2SO4", "LiF", "Si3N4", "YBa2Cu3O7", "Na0.5K0.5Cl"]
+            "((H2)2)2", "Pb", "UO2", "He", "CoCO3", "Mg(NO3)2", "K4Fe(CN)6", "Al2(SO4)3", "(NH4)2SO4", "LiF", "Si3N4", "YBa2Cu3O7", "Na0.5K0.5Cl",
+            # several groups on one level, with and without subscripts (an error in a LATER group after an earlier one was processed)
+            "Ca(OH)2(H2O)6", "(NH4)2(SO4)", "Mg3(PO4)2(H2O)8", "(CH3)2(CO)", "K((OH)2(CN))2"]
+CORPUS24_QUICK = CORPUS24[:10] + CORPUS24[-5:]
 
 
 def mutations(s):
@@ -193,6 +196,17 @@ def parse_cd(fields):
     na = [xrl.hd(x) for x in fields[4].split(",")] if fields[4] else []
     mf = [xrl.hd(x) for x in fields[5].split(",")] if fields[5] else []
     return nE, nall, mm, Zs, na, mf
+
+
+def corpus_for_memory_checks(quick):
+    """formula strings for C04 (ASan / leak accounting): the valid corpus, its single-byte mutations and the bad list"""
+    out = set()
+    for s in (CORPUS24 if not quick else CORPUS24_QUICK):
+        out |= mutations(s); out.add(s.encode())
+    for s in ["", "Rf", "Sg(CH3)4", "(Rf)2", "H2Db", "0", "h2o", "H2O)", "(H2O", "H()", "()", "H2..5", "H0", "(H)0", "H2.5.5", "Uu", "H2(O", ")H(",
+              "Ca(OH)2(Xx)", "(NH4)2(SO4)1.2.3", "Ca5(PO4)3(OHh)", "K((OH)2(Zz))", "(H2)2(O)0", "(A)2(B)3(C)4", "((H2)2(Xx))3"]:
+        out.add(s.encode())
+    return sorted(out)
 
 
 def run(ctx, B):
@@ -263,7 +277,7 @@ def run(ctx, B):
                     strings.append((p, "perm"))
     # 4. malformed: single-byte mutations
     muts = set()
-    for s in (CORPUS24 if not quick else CORPUS24[:10]):
+    for s in (CORPUS24 if not quick else CORPUS24_QUICK):
         muts |= mutations(s)
     for m in sorted(muts):
         strings.append((m, "mutation"))
@@ -276,7 +290,29 @@ def run(ctx, B):
         seen.setdefault(s, tag)
     slist = list(seen.keys())
     ctx.log("parsing %d distinct strings" % len(slist))
-    recs, lines = X.op("CompoundParser", "s", slist)
+    try:
+        recs, lines = X.op("CompoundParser", "s", slist)
+    except xrl.DriverDied:
+        # a crashing string is a violation, not an infrastructure failure: find it, then parse the rest in small pieces
+        recs, crashed, skipped = X.op_safe("CompoundParser", "s", slist)
+        for j in crashed:
+            sj = slist[j] if not isinstance(slist[j], bytes) else slist[j].decode("latin-1")
+            ctx.violation("parser|%s|crash|%s" % (seen[slist[j]], sj), "CompoundParser(%r) kills the process" % (sj,), dict(cfg="A", calls=[dict(op="CompoundParser", sig="s", args=[sj])]))
+        lines = []
+        recs["flags"][crashed] |= (F_ERR | F_NULLOBJ)        # no further claims about the strings that killed the process
+        if skipped is not None:
+            recs["flags"][skipped:] |= (F_ERR | F_NULLOBJ)
+        keep = [j for j in range(len(slist)) if j not in set(crashed) and (skipped is None or j < skipped)]
+        for a in range(0, len(keep), 20000):
+            part = keep[a:a + 20000]
+            try:
+                r_, l_ = X.op("CompoundParser", "s", [slist[j] for j in part])
+            except xrl.DriverDied:
+                continue
+            for l in l_:
+                f = l.split("\t")
+                if f[0].isdigit():
+                    lines.append("\t".join([str(part[int(f[0])])] + f[1:]))
     blob = xrl.parse_blob_lines(lines)
     ctx.add(evaluations=len(slist))
     res = {}
